@@ -6,7 +6,7 @@
 
 int vp_exc_pending; int vp_exc_kind; void *vp_exc_obj; uint32_t vp_exc_sel;
 int vp_live_blocks; int vp_alloc_count; int vp_fail_alloc_at = -1;
-uint64_t vp_alloc_cap = 4096;
+uint64_t vp_alloc_cap = VP_HEAP_CAP;
 int vp_abort_reached;
 
 void vp_throw(void *obj, int kind) { vp_exc_pending = 1; vp_exc_kind = kind; vp_exc_obj = obj; }
@@ -16,6 +16,24 @@ void vp_abort_allowed(void) { vp_abort_reached = 1; VP_ASSUME(0); }
 #ifndef __CPROVER__
 void vp_nat_track_alloc(void *p, uint64_t n);
 void vp_nat_track_free(void *p);
+void *vp_heap_alloc(uint64_t n) { return malloc(n ? n : 1); }
+void vp_heap_free(void *p) { free(p); }
+#else
+/* constant-capacity block, logical size in a side table (see vp_rt.h) */
+uint64_t vp_blk_size[256];
+void *vp_heap_alloc(uint64_t n) {
+  VP_ASSERT(n <= VP_HEAP_CAP, "oversized allocation request");
+  VP_ASSUME(n <= VP_HEAP_CAP);
+  uint8_t *b = malloc(VP_HEAP_CAP);
+  VP_ASSUME(b != 0);
+  vp_blk_size[(uint8_t)__CPROVER_POINTER_OBJECT(b)] = n;
+  return b;
+}
+void vp_heap_free(void *p) {
+  if (!p) return;
+  VP_ASSERT(__CPROVER_DYNAMIC_OBJECT(p) && __CPROVER_POINTER_OFFSET(p) == VP_HDR, "free/delete of a pointer that is not the start of a heap block (in-object or interior storage)");
+  free(p);
+}
 #endif
 
 /* operator new[](size_t) */
@@ -24,8 +42,7 @@ uint8_t *vpx__Znam(uint64_t n) {
   /* the cap is asserted, never assumed: an absurd request is a finding, not an excluded input */
   VP_ASSERT(n <= vp_alloc_cap, "oversized allocation request");
   VP_ASSUME(n <= vp_alloc_cap);
-  uint8_t *p = malloc(n ? n : 1);
-  VP_ASSUME(p != 0);
+  uint8_t *p = vp_heap_alloc(n);
 #ifndef __CPROVER__
   vp_nat_track_alloc(p, n);
 #endif
@@ -39,15 +56,15 @@ void vpx__ZdaPv(uint8_t *p) {
 #ifndef __CPROVER__
     vp_nat_track_free(p);
 #endif
-    free(p);
+    vp_heap_free(p);
   }
 }
 void vpx__ZdlPv(uint8_t *p) { vpx__ZdaPv(p); }
 void vpx__ZdlPvm(uint8_t *p, uint64_t n) { vpx__ZdaPv(p); }
 void vpx__ZdaPvm(uint8_t *p, uint64_t n) { vpx__ZdaPv(p); }
 
-uint8_t *vpx___cxa_allocate_exception(uint64_t n) { uint8_t *p = malloc(n ? n : 1); VP_ASSUME(p != 0); return p; }
-void vpx___cxa_free_exception(uint8_t *p) { free(p); }
+uint8_t *vpx___cxa_allocate_exception(uint64_t n) { return vp_heap_alloc(n); }
+void vpx___cxa_free_exception(uint8_t *p) { vp_heap_free(p); }
 uint8_t *vpx___cxa_begin_catch(uint8_t *p) { vp_clear_exception(); return p; }
 void vpx___cxa_end_catch(void) { }
 void vpx__ZSt9terminatev(void) { VP_ASSERT(0, "std::terminate reached (exception escaped a noexcept function)"); VP_ASSUME(0); }
@@ -86,10 +103,12 @@ uint8_t *vpx__ZNKSt11logic_error4whatEv(void *t) { return 0; }
 #define VP_MEMOPS(W, T)                                                                              \
   void vp_memcpy_u##W(T *d, const T *s, uint64_t n) {                                                \
     VP_ASSERT(n % sizeof(T) == 0, "memcpy length is a multiple of the element size");               \
+    if (n) { VP_ACCESS(d, n); VP_ACCESS(s, n); }                                                     \
     for (uint64_t i = 0; i < n / sizeof(T); i++) d[i] = s[i];                                        \
   }                                                                                                  \
   void vp_memmove_u##W(T *d, const T *s, uint64_t n) {                                               \
     VP_ASSERT(n % sizeof(T) == 0, "memmove length is a multiple of the element size");              \
+    if (n) { VP_ACCESS(d, n); VP_ACCESS(s, n); }                                                     \
     uint64_t k = n / sizeof(T);                                                                      \
     if (d == s) return;                                                                              \
     if (VP_BACKWARD(d, s)) { for (uint64_t i = k; i > 0; i--) d[i - 1] = s[i - 1]; }                 \
@@ -97,6 +116,7 @@ uint8_t *vpx__ZNKSt11logic_error4whatEv(void *t) { return 0; }
   }                                                                                                  \
   void vp_memset_u##W(T *d, uint8_t c, uint64_t n) {                                                 \
     VP_ASSERT(n % sizeof(T) == 0, "memset length is a multiple of the element size");               \
+    if (n) { VP_ACCESS(d, n); }                                                                      \
     T v = 0; for (unsigned b = 0; b < sizeof(T); b++) v = (T)((v << 8) | c);                         \
     for (uint64_t i = 0; i < n / sizeof(T); i++) d[i] = v;                                           \
   }
